@@ -18,6 +18,7 @@ import (
 	"runtime/debug"
 	"strings"
 	"sync"
+	"syscall"
 	"time"
 )
 
@@ -53,6 +54,8 @@ type Exchange struct {
 	cancel            context.CancelFunc
 	body              *ctlBody
 	flushes           int
+	earlyData          []byte
+	failHijackedWrites bool
 	// holdHeader: a slow connection: the first WriteHeader call blocks until the channel is closed
 	holdHeader chan struct{}
 	HeldHeader bool // a WriteHeader call is (or was) held
@@ -165,6 +168,14 @@ func (r recorder) Hijack() (net.Conn, *bufio.ReadWriter, error) {
 	e.Hijacked = true
 	e.server, e.Client = newMemConnPair()
 	brw := bufio.NewReadWriter(bufio.NewReader(e.server), bufio.NewWriter(e.server))
+	if len(e.earlyData) > 0 {
+		// net/http hands over its read buffer, which already holds what followed the request head
+		e.Client.Write(e.earlyData)
+		brw.Reader.Peek(1)
+	}
+	if e.failHijackedWrites {
+		e.server.w.FailNextWrite(syscall.EPIPE)
+	}
 	e.cond.Broadcast()
 	return e.server, brw, nil
 }
@@ -287,6 +298,11 @@ type ReqSpec struct {
 	// BodyErrIsEncoding: the body read failure injected with FailBodyAt is the body's own (malformed chunked
 	// encoding): the connection is still there, net/http does not cancel the request context
 	BodyErrIsEncoding bool
+	// EarlyData: bytes of the client's first frame(s) that arrive together with an upgrade request's head: they
+	// are already in the connection's read buffer when the handler hijacks it
+	EarlyData []byte
+	// FailHijackedWrites: the connection is gone by the time the handler hijacks it: the first write fails
+	FailHijackedWrites bool
 	// PreHeader: response headers already set on the ResponseWriter when the engine gets the request (the engine
 	// mounted behind a host application's handler or middleware that sets defaults before delegating)
 	PreHeader http.Header
@@ -312,7 +328,7 @@ func Do(h http.Handler, spec ReqSpec) *Exchange {
 	if req.RemoteAddr == "" {
 		req.RemoteAddr = "10.9.9.9:5555"
 	}
-	e := &Exchange{Method: spec.Method, URL: u.String(), hdr: http.Header{}, cancel: cancel, StartedAt: time.Now(), holdHeader: spec.HoldHeader}
+	e := &Exchange{Method: spec.Method, URL: u.String(), hdr: http.Header{}, cancel: cancel, StartedAt: time.Now(), holdHeader: spec.HoldHeader, earlyData: spec.EarlyData, failHijackedWrites: spec.FailHijackedWrites}
 	e.cond = sync.NewCond(&e.mu)
 	for k, v := range spec.PreHeader {
 		e.hdr[k] = append([]string(nil), v...)
